@@ -49,6 +49,25 @@ def tree_hash(repo, extra=""):
     return h.hexdigest()[:32]
 
 
+def src_hash(repo):
+    """Hash of the analysed sources alone (src/**, Cargo.toml, Cargo.lock)."""
+    h = hashlib.sha256()
+    files = []
+    for root, dirs, fs in os.walk(os.path.join(repo, "src")):
+        dirs.sort()
+        for f in sorted(fs):
+            files.append(os.path.join(root, f))
+    for f in ("Cargo.toml", "Cargo.lock"):
+        files.append(os.path.join(repo, f))
+    for f in files:
+        h.update(os.path.relpath(f, repo).encode())
+        h.update(b"\0")
+        with open(f, "rb") as fh:
+            h.update(fh.read())
+        h.update(b"\0")
+    return h.hexdigest()[:32]
+
+
 def sysroot():
     return subprocess.check_output(["rustc", "+nightly", "--print", "sysroot"]).decode().strip()
 
